@@ -46,6 +46,7 @@ pub struct Handle {
     pub tid: usize,
     gap: Cell<u64>,
     local_steps: Cell<u64>,
+    my_switches: Cell<u64>,
 }
 
 impl Baton {
@@ -114,6 +115,7 @@ impl Handle {
     ) -> std::sync::MutexGuard<'a, Inner> {
         let b = &self.baton;
         g.switches += 1;
+        self.my_switches.set(self.my_switches.get() + 1);
         g.trace = hash_u64(hash_u64(hash_u64(g.trace, g.steps), self.tid as u64), to as u64);
         let pa = b.phases[self.tid].load(Ordering::Relaxed);
         let pb = b.phases[to].load(Ordering::Relaxed);
@@ -167,6 +169,11 @@ impl Handle {
         }
     }
 
+    /// how often this thread has been pre-empted so far
+    pub fn switches(&self) -> u64 {
+        self.my_switches.get()
+    }
+
     pub fn set_phase(&self, p: u8) {
         self.baton.phases[self.tid].store(p, Ordering::Relaxed);
     }
@@ -206,6 +213,7 @@ pub fn run_threads<T: Send + 'static>(
                     tid,
                     gap: Cell::new(u64::MAX),
                     local_steps: Cell::new(0),
+                    my_switches: Cell::new(0),
                 });
                 h.acquire();
                 let h2 = h.clone();
